@@ -72,9 +72,27 @@ static int v_fprintf(FILE *fp, const char *fmt, ...)
 	va_end(ap);
 	return 0;
 }
+/* other stdio output calls a refactored printer might use are routed to the same sink */
+static int v_fputs(const char *str, FILE *fp)
+{
+	const char *q;
+
+	for (q = str; *q; q++)
+		if (*q == '%')
+			return v_fprintf(fp, "%s", str);
+	return v_fprintf(fp, str);
+}
+static int v_fputc(int c, FILE *fp) { return v_fprintf(fp, "%c", c); }
 #define fprintf v_fprintf
+#define fputs v_fputs
+#define fputc v_fputc
+#undef putc
+#define putc v_fputc
 #include "confuse.c"
 #undef fprintf
+#undef fputs
+#undef fputc
+#undef putc
 #include "build.h"
 
 #if MODE == 1 || MODE == 2
